@@ -32,6 +32,7 @@ func runC13(p *load.Program, r *oblig.Report) {
 	c13Cache(p, r)
 	c13WriterBalancer(p, r)
 	c13CacheLength(p, r)
+	c13NoAppendAfterSizedMake(p, r, "C13.R10 per-partition tables have one entry per partition", "balancer.go")
 }
 
 // returnShapes lists the distinct normalised shapes of the values a function can return.
